@@ -1,5 +1,7 @@
 """Contract on glob._GlobSplit.split - the epilogue that adds the implicit recursive prefix (MATCHBASE / rglob) and rejects absolute
 patterns for pathlib; the character scanner in the middle is abstract (trivial invariants; its pieces are the C05 harness's business)."""
+import ast
+
 import z3
 
 from vlib import pyvc
@@ -55,10 +57,18 @@ class GlobSplitSplit(Contract):
         def h_isinstance(eng, node, st, args):
             return Bool(me.is_bytes)
 
+        def codec_ok(eng, node, st, args, what):
+            # bytes patterns are Latin-1 code units (C18): every decode/encode in the splitter names that codec
+            a = node.args[0] if getattr(node, 'args', None) else None
+            ok = isinstance(a, ast.Constant) and a.value == 'latin-1'
+            eng.oblige(f'_GlobSplit.split.bytes_patterns_are_{what}d_as_latin-1', st, z3.BoolVal(bool(ok)), node)
+
         def h_decode(eng, node, st, args):
+            codec_ok(eng, node, st, args, 'decode')
             return Str(me.PAT)
 
         def h_encode(eng, node, st, args):
+            codec_ok(eng, node, st, args, 'encode')
             return ObjV(z3.Const(pyvc.fresh('encoded'), Obj))
 
         def h_iter(eng, node, st, args):
@@ -164,7 +174,7 @@ class GlobSplitSplit(Contract):
                  lambda c: z3.Implies(z3.BoolVal(pyvc.isa(c.exc, 'ValueError')), me.f['no_abs']))]
 
     obligation_props = {'_GlobSplit.split.implicit_prefix_inserted': ('C02', 'C04', 'C05', 'C16'), '_GlobSplit.split.a_leading': ('C06', 'C16', 'C04'),
-                        '_GlobSplit.split.loop': ('C05',)}
+                        '_GlobSplit.split.loop': ('C05',), '_GlobSplit.split.bytes_patterns': ('C18',)}
 
 
 ALL = [GlobSplitSplit()]
